@@ -194,9 +194,18 @@ def Implements (enc : Enc) (oh : Option EndTagHandler) (E : ElemEdit) : Prop :=
      | none => ({ name := name, raw := raw } : EndTag)).intoBytes enc
       = edit enc (endTagOwn raw E.endTagScript) (endMutOps E.endTagScript)
 
+/-- A deferred handler without any visible effect: no rename, no call by a user handler, and the
+mutations it installs (if any) encode to nothing and remove nothing. -/
+def Invisible (enc : Enc) (h : EndTagHandler) : Prop :=
+  h.modifiedName = none ∧ (∀ l ∈ h.user, l = []) ∧
+    (∀ m, h.mutations = some m →
+      encodeDyn enc m.mutate.contentBefore = [] ∧ encodeDyn enc m.mutate.contentAfter = []
+        ∧ m.mutate.removed = false ∧ m.mutate.replacement = [])
+
 def EditRel (enc : Enc) (d : ElementDescriptor) (oh : Option EndTagHandler) : Option ElemEdit → Prop
   | none => d.removeContent = false ∧ oh = none
   | some E => d.removeContent = E.innerRemoved ∧ Implements enc oh E
+      ∧ (hasEndEdits enc E = false → ∀ h, oh = some h → Invisible enc h)
 
 /-- Model stack ~ specification's open elements ~ the dispatcher's end-tag handler vector: the vector
 holds exactly the deferred handlers of the open elements, outermost first, none of them active. -/
@@ -511,7 +520,8 @@ inside removed content), an element with content ends up with the documented end
 theorem element_end_facts (enc : Enc) (st : StartTag) (ops : List ElementOp) :
     let el := (Element.new st true).applyOps ops
     let E := ElemEdit.applyOps true {} ops
-    el.shouldRemoveContent = E.innerRemoved ∧ Implements enc el.intoEndTagHandler E := by
+    el.shouldRemoveContent = E.innerRemoved ∧ Implements enc el.intoEndTagHandler E
+      ∧ (hasEndEdits enc E = false → ∀ h, el.intoEndTagHandler = some h → Invisible enc h) := by
   intro el E
   have hchc : el.canHaveContent = true := applyOps_canHaveContent _ _
   have hinv : EInv el := EInv_applyOps _ _ (EInv_new st true)
@@ -521,7 +531,7 @@ theorem element_end_facts (enc : Enc) (st : StartTag) (ops : List ElementOp) :
     show endPart (absEl ((Element.new st true).applyOps ops)) = _
     rw [absEl_applyOps]
     exact endPart_applyOps _ _ h0 ops
-  refine ⟨?_, ?_⟩
+  refine ⟨?_, ?_, ?_⟩
   · have : (absEl el).innerRemoved = E.innerRemoved := by
       simp only [endPart, Prod.mk.injEq] at hep; exact hep.1
     rw [← this]; rfl
@@ -531,6 +541,36 @@ theorem element_end_facts (enc : Enc) (st : StartTag) (ops : List ElementOp) :
     rw [← this]
     unfold endTagAfter
     cases el.intoEndTagHandler <;> rfl
+  · intro hne h hh
+    simp only [endPart, Prod.mk.injEq] at hep
+    obtain ⟨_, hap, hed, hen, heh, haf⟩ := hep
+    simp only [hasEndEdits, Bool.or_eq_false_iff, Bool.not_eq_false', List.isEmpty_iff,
+      Option.isSome_eq_false_iff, Option.isNone_iff_eq_none, List.any_eq_false, Bool.not_eq_true'] at hne
+    obtain ⟨⟨⟨⟨ha, hb⟩, hc⟩, hd⟩, he⟩ := hne
+    unfold Element.intoEndTagHandler at hh
+    split at hh
+    · cases hh
+      refine ⟨?_, ?_, ?_⟩
+      · show el.modifiedEndTagName = none
+        have : (absEl el).endName = E.endName := hen
+        rw [hd] at this; exact this
+      · intro l hl
+        have : (absEl el).endHandlers = E.endHandlers := heh
+        have hl' : l ∈ E.endHandlers := by rw [← this]; exact hl
+        have := he l hl'
+        simpa using this
+      · intro m hm
+        have hmm : m.mutate = el.endTagMutationsMut := by
+          simp only [Element.endTagMutationsMut]
+          have : el.endTagMutations = some m := hm
+          rw [this]
+        have h1 : (absEl el).append = E.append := hap
+        have h2 : (absEl el).after = E.after := haf
+        have h3 : (absEl el).endDropped = E.endDropped := hed
+        simp only [absEl, hchc, if_true] at h1 h2 h3
+        rw [hmm, h1, h2, h3]
+        exact ⟨ha, hb, hc, hinv.noRepl⟩
+    · cases hh
 
 /-- The start region, for a fresh start tag. -/
 theorem element_start_region (enc : Enc) (st : StartTag) (hfresh : st.mutations = {}) (chc : Bool)
@@ -596,7 +636,8 @@ theorem Sim.removedCount_zero {H : List Handler} {enc : Enc} {ms : St} {ss : Spe
 /-- Registering the element the handlers produced, on top of the freshly pushed stack item. -/
 theorem register_sim {H : List Handler} {enc : Enc} {ms1 : St} {ss1 : SpecSt} (hf : Sim H enc ms1 ss1)
     (lname : Bytes) (ids : List Nat) (hn : ids.Nodup) (inv' : Nat → Nat) (el : Element) (E : ElemEdit)
-    (hE1 : el.shouldRemoveContent = E.innerRemoved) (hE2 : Implements enc el.intoEndTagHandler E) :
+    (hE1 : el.shouldRemoveContent = E.innerRemoved) (hE2 : Implements enc el.intoEndTagHandler E)
+    (hE3 : hasEndEdits enc E = false → ∀ h, el.intoEndTagHandler = some h → Invisible enc h) :
     let P : St := { ms1 with
       stack := { localName := lname, data := { matched := ids } } :: ms1.stack,
       counts := startMatching H ids true ms1.counts, inv := inv' }
@@ -625,33 +666,33 @@ theorem register_sim {H : List Handler} {enc : Enc} {ms1 : St} {ss1 : SpecSt} (h
     · exact hf.nodup x hx
   cases hsr : el.shouldRemoveContent <;> cases hh : el.intoEndTagHandler
   · -- content kept, nothing deferred
-    rw [hh] at hE2; rw [hsr] at hE1
+    rw [hh] at hE2 hE3; rw [hsr] at hE1
     have e : R = P := by simp only [R, registerElement, hsr, hh]; rfl
     rw [e] at hs1 hs2 hs3 ⊢
-    exact ⟨⟨rfl, hf.tp, Rel.consNone hf.rel rfl rfl rfl ⟨hE1, hE2⟩, hcinv _ rfl, ⟨hs1, rfl, hf.rinv.noUnderflow⟩,
+    exact ⟨⟨rfl, hf.tp, Rel.consNone hf.rel rfl rfl rfl ⟨hE1, hE2, hE3⟩, hcinv _ rfl, ⟨hs1, rfl, hf.rinv.noUnderflow⟩,
       hf.nofault, hnd _ rfl⟩, rfl⟩
   · -- content kept, a handler deferred
     rename_i hd
-    rw [hh] at hE2; rw [hsr] at hE1
+    rw [hh] at hE2 hE3; rw [hsr] at hE1
     have e : R = { P with
         stack := { localName := lname, data := { matched := ids, endTagHandlerIdx := some ms1.endTagHandlers.length } } :: ms1.stack,
         endTagHandlers := ms1.endTagHandlers ++ [{ handler := hd, userCount := 0 }] } := by
       simp only [R, registerElement, hsr, hh, P, modifyTop]; rfl
     rw [e] at hs1 hs2 hs3 ⊢
-    exact ⟨⟨rfl, hf.tp, Rel.consSome hf.rel rfl rfl rfl ⟨hE1, hE2⟩, hcinv _ rfl, ⟨hs1, rfl, hf.rinv.noUnderflow⟩,
+    exact ⟨⟨rfl, hf.tp, Rel.consSome hf.rel rfl rfl rfl ⟨hE1, hE2, hE3⟩, hcinv _ rfl, ⟨hs1, rfl, hf.rinv.noUnderflow⟩,
       hf.nofault, hnd _ rfl⟩, rfl⟩
   · -- content removed, nothing deferred
-    rw [hh] at hE2; rw [hsr] at hE1
+    rw [hh] at hE2 hE3; rw [hsr] at hE1
     have e : R = { P with
         stack := { localName := lname, data := { matched := ids, removeContent := true } } :: ms1.stack,
         removedCount := ms1.removedCount + 1 } := by
       simp only [R, registerElement, hsr, hh, P, modifyTop]; rfl
     rw [e] at hs1 hs2 hs3 ⊢
-    exact ⟨⟨rfl, hf.tp, Rel.consNone hf.rel rfl rfl rfl ⟨hE1, hE2⟩, hcinv _ rfl, ⟨hs1, rfl, hf.rinv.noUnderflow⟩,
+    exact ⟨⟨rfl, hf.tp, Rel.consNone hf.rel rfl rfl rfl ⟨hE1, hE2, hE3⟩, hcinv _ rfl, ⟨hs1, rfl, hf.rinv.noUnderflow⟩,
       hf.nofault, hnd _ rfl⟩, rfl⟩
   · -- content removed, a handler deferred
     rename_i hd
-    rw [hh] at hE2; rw [hsr] at hE1
+    rw [hh] at hE2 hE3; rw [hsr] at hE1
     have e : R = { P with
         stack := { localName := lname, data := { matched := ids, endTagHandlerIdx := some ms1.endTagHandlers.length,
                                                  removeContent := true } } :: ms1.stack,
@@ -659,7 +700,7 @@ theorem register_sim {H : List Handler} {enc : Enc} {ms1 : St} {ss1 : SpecSt} (h
         endTagHandlers := ms1.endTagHandlers ++ [{ handler := hd, userCount := 0 }] } := by
       simp only [R, registerElement, hsr, hh, P, modifyTop]; rfl
     rw [e] at hs1 hs2 hs3 ⊢
-    exact ⟨⟨rfl, hf.tp, Rel.consSome hf.rel rfl rfl rfl ⟨hE1, hE2⟩, hcinv _ rfl, ⟨hs1, rfl, hf.rinv.noUnderflow⟩,
+    exact ⟨⟨rfl, hf.tp, Rel.consSome hf.rel rfl rfl rfl ⟨hE1, hE2, hE3⟩, hcinv _ rfl, ⟨hs1, rfl, hf.rinv.noUnderflow⟩,
       hf.nofault, hnd _ rfl⟩, rfl⟩
 
 theorem stepStartTag_sim {H : List Handler} {enc : Enc} {ms : St} {ss : SpecSt} (h : Sim H enc ms ss)
@@ -742,7 +783,7 @@ theorem stepStartTag_sim {H : List Handler} {enc : Enc} {ms : St} {ss : SpecSt} 
             (StartTagOp.mut MutOp.remove)
           else { name := name, attributes := attrs, ns := ns, selfClosing := sc, raw := raw }) = st
       have hE := element_end_facts enc st c.2
-      have hreg := register_sim hf (asciiLowerBytes name) ids hn c.1 _ _ hE.1 hE.2
+      have hreg := register_sim hf (asciiLowerBytes name) ids hn c.1 _ _ hE.1 hE.2.1 hE.2.2
       refine ⟨hreg.1, ?_⟩
       congr 1
       rw [hreg.2]
@@ -933,6 +974,117 @@ theorem foldl_stopMatching_untouched (H : List Handler) (ds : List ElementDescri
       simp only
       omega
 
+theorem modify_at_length {α : Type} (P : List α) (x : α) (b : List α) (f : α → α) :
+    (P ++ x :: b).modify P.length f = P ++ f x :: b := by
+  induction P with
+  | nil => simp [List.modify]
+  | cons a P ih => simp [ih]
+
+/-- `stop_matching` for an element whose deferred handler sits at position `P.length` of the vector. -/
+theorem stopMatching_at (H : List Handler) (s : St) (d : ElementDescriptor) (hn : d.matched.Nodup)
+    (hpos : ∀ i ∈ d.matched, isContentHandler H i = true → 1 ≤ s.counts i)
+    (P b : List EndTagHandlerItem) (x : EndTagHandlerItem)
+    (hvec : s.endTagHandlers = P ++ x :: b)
+    (hidx : d.endTagHandlerIdx = some P.length) (hrc : d.removeContent = true → s.removedCount ≠ 0) :
+    stopMatching H s d = { s with
+      counts := fun i => s.counts i - (if isContentHandler H i && d.matched.contains i then 1 else 0),
+      endTagHandlers := P ++ { x with userCount := x.userCount + 1 } :: b,
+      removedCount := s.removedCount - (if d.removeContent then 1 else 0) } := by
+  unfold stopMatching
+  rw [decCounts_spec H s d.matched hn hpos, hidx]
+  have hlt : P.length < (P ++ x :: b).length := by simp
+  simp only [activateEndTagHandler, decRemoved, hvec, hlt, if_true, modify_at_length]
+  cases hr : d.removeContent
+  · simp
+  · have := hrc hr
+    simp [this]
+
+/-- Layout of the deferred handlers of a list of popped elements (in popping order, outermost
+first) inside the handler vector, starting at position `n`; none of them active. -/
+inductive VR : Nat → List ElementDescriptor → List EndTagHandlerItem → Prop
+  | nil (n : Nat) : VR n [] []
+  | skip {n : Nat} {d : ElementDescriptor} {ds : List ElementDescriptor} {hs : List EndTagHandlerItem} :
+      d.endTagHandlerIdx = none → VR n ds hs → VR n (d :: ds) hs
+  | keep {n : Nat} {d : ElementDescriptor} {ds : List ElementDescriptor} {hs : List EndTagHandlerItem}
+      {h : EndTagHandler} :
+      d.endTagHandlerIdx = some n → VR (n + 1) ds hs → VR n (d :: ds) ({ handler := h, userCount := 0 } :: hs)
+
+def activate (it : EndTagHandlerItem) : EndTagHandlerItem := { it with userCount := it.userCount + 1 }
+
+theorem countRemovedD_le_cons (d : ElementDescriptor) (ds : List ElementDescriptor) :
+    countRemovedD ds ≤ countRemovedD (d :: ds) := by
+  rw [countRemovedD_cons]; omega
+
+/-- Popping any list of elements whose deferred handlers are the tail of the vector. -/
+theorem foldl_stopMatching_VR (H : List Handler) (ds : List ElementDescriptor)
+    (Q : List EndTagHandlerItem) (n : Nat) (hv : VR n ds Q) (S : St) (P : List EndTagHandlerItem)
+    (hP : P.length = n) (hvec : S.endTagHandlers = P ++ Q)
+    (hnd : ∀ d ∈ ds, d.matched.Nodup) (hc : ∀ i, sumInd H ds i ≤ S.counts i)
+    (hr : countRemovedD ds ≤ S.removedCount) :
+    ds.foldl (stopMatching H) S = { S with
+      counts := fun i => S.counts i - sumInd H ds i,
+      endTagHandlers := P ++ Q.map activate,
+      removedCount := S.removedCount - countRemovedD ds } := by
+  induction hv generalizing S P with
+  | nil n =>
+    obtain ⟨st, cn, iv, eh, rc, em, tp, f1, f2⟩ := S
+    simp only at hvec
+    simp [sumInd, countRemovedD, hvec]
+  | @skip n d ds hs hidx hv ih =>
+    have hpos : ∀ i ∈ d.matched, isContentHandler H i = true → 1 ≤ S.counts i := by
+      intro i hi hci
+      have := hc i
+      rw [sumInd_cons] at this
+      have hcont : d.matched.contains i = true := by simpa using hi
+      rw [hci, hcont] at this
+      simp only [Bool.and_self, if_true] at this
+      omega
+    have hrc : d.removeContent = true → S.removedCount ≠ 0 := by
+      intro hr'; rw [countRemovedD_cons, hr'] at hr; simp at hr; omega
+    rw [List.foldl_cons, stopMatching_none H S d (hnd d List.mem_cons_self) hpos hidx hrc]
+    rw [ih _ P hP (by simpa using hvec) (fun d' hd' => hnd d' (List.mem_cons_of_mem _ hd'))]
+    · obtain ⟨st, cn, iv, eh, rc, em, tp, f1, f2⟩ := S
+      simp only [St.mk.injEq, true_and, and_true]
+      refine ⟨?_, ?_⟩
+      · funext i; rw [sumInd_cons]; omega
+      · rw [countRemovedD_cons]; cases d.removeContent <;> simp <;> omega
+    · intro i
+      have := hc i
+      rw [sumInd_cons] at this
+      simp only
+      omega
+    · simp only
+      rw [countRemovedD_cons] at hr
+      omega
+  | @keep n d ds hs h hidx hv ih =>
+    have hpos : ∀ i ∈ d.matched, isContentHandler H i = true → 1 ≤ S.counts i := by
+      intro i hi hci
+      have := hc i
+      rw [sumInd_cons] at this
+      have hcont : d.matched.contains i = true := by simpa using hi
+      rw [hci, hcont] at this
+      simp only [Bool.and_self, if_true] at this
+      omega
+    have hrc : d.removeContent = true → S.removedCount ≠ 0 := by
+      intro hr'; rw [countRemovedD_cons, hr'] at hr; simp at hr; omega
+    rw [List.foldl_cons, stopMatching_at H S d (hnd d List.mem_cons_self) hpos P hs _ hvec (by rw [hP]; exact hidx) hrc]
+    rw [ih _ (P ++ [{ handler := h, userCount := 0 + 1 }]) (by simp [hP]) (by simp)
+      (fun d' hd' => hnd d' (List.mem_cons_of_mem _ hd'))]
+    · obtain ⟨st, cn, iv, eh, rc, em, tp, f1, f2⟩ := S
+      simp only [St.mk.injEq, true_and, and_true]
+      refine ⟨?_, ?_, ?_⟩
+      · funext i; rw [sumInd_cons]; omega
+      · simp [activate]
+      · rw [countRemovedD_cons]; cases d.removeContent <;> simp <;> omega
+    · intro i
+      have := hc i
+      rw [sumInd_cons] at this
+      simp only
+      omega
+    · simp only
+      rw [countRemovedD_cons] at hr
+      omega
+
 theorem occ_ge_of_mem (H : List Handler) (i : Nat) (it : StackItem) (st : List StackItem)
     (hc : isContentHandler H i = true) (hm : i ∈ it.data.matched) : 1 ≤ occ H i (it :: st) := by
   rw [occ_cons]
@@ -1018,6 +1170,254 @@ theorem Rel.split {enc : Enc} {st : List StackItem} {os : List OpenEl} {hs : Lis
         rw [hso] at he
         exact absurd he.2 (by simp)
 
+theorem VR.snoc_none {n : Nat} {ds : List ElementDescriptor} {Q : List EndTagHandlerItem}
+    (hv : VR n ds Q) (d : ElementDescriptor) (hd : d.endTagHandlerIdx = none) : VR n (ds ++ [d]) Q := by
+  induction hv with
+  | nil n => exact VR.skip hd (VR.nil n)
+  | skip hi _ ih => exact VR.skip hi ih
+  | keep hi _ ih => exact VR.keep hi ih
+
+theorem VR.snoc_some {n : Nat} {ds : List ElementDescriptor} {Q : List EndTagHandlerItem}
+    (hv : VR n ds Q) (d : ElementDescriptor) (h : EndTagHandler) :
+    d.endTagHandlerIdx = some (n + Q.length) →
+      VR n (ds ++ [d]) (Q ++ [{ handler := h, userCount := 0 }]) := by
+  induction hv with
+  | nil n => intro hd; exact VR.keep (by simpa using hd) (VR.nil _)
+  | skip hi _ ih => intro hd; exact VR.skip hi (ih hd)
+  | @keep n d' ds hs h' hi _ ih =>
+    intro hd
+    refine VR.keep hi (ih ?_)
+    rw [hd]; simp only [List.length_cons]; congr 1; omega
+
+/-- What the end tag closes, read off the simulation relation: the implicitly closed elements `imps`
+(innermost first), the target, the rest; the handler vector is `Vrest ++ QT ++ Qimps` with the
+target's deferred handler (if any) in `QT` and the implicit elements' handlers — all invisible if
+those elements have no end-region edits — in `Qimps`. -/
+theorem Rel.decompose {enc : Enc} {st : List StackItem} {os : List OpenEl} {hs : List EndTagHandlerItem}
+    (r : Rel enc st os hs) (p : OpenEl → Bool) (idx : Nat) (hfi : os.findIdx? p = some idx)
+    (hun : ∀ o ∈ os.take idx, elHasEndEdits enc o = false) :
+    ∃ imps target rest impsO targetO restO Vrest QT Qimps,
+      st = imps ++ target :: rest ∧ os = impsO ++ targetO :: restO ∧ imps.length = idx
+        ∧ impsO.length = idx
+        ∧ hs = Vrest ++ (QT ++ Qimps)
+        ∧ Rel enc rest restO Vrest
+        ∧ VR Vrest.length (target.data :: imps.reverse.map StackItem.data) (QT ++ Qimps)
+        ∧ (∀ x ∈ Qimps, x.userCount = 0 ∧ Invisible enc x.handler)
+        ∧ (∀ o ∈ impsO, elHasEndEdits enc o = false)
+        ∧ ((QT = [] ∧ EditRel enc target.data none targetO.edit)
+            ∨ (∃ h, QT = [{ handler := h, userCount := 0 }] ∧ EditRel enc target.data (some h) targetO.edit)) := by
+  induction r generalizing idx with
+  | nil => simp at hfi
+  | @consNone mi so rest ro hs r hn hm hi he ih =>
+    rw [List.findIdx?_cons] at hfi
+    by_cases hp : p so = true
+    · simp only [hp, if_true, Option.some.injEq] at hfi
+      subst hfi
+      exact ⟨[], mi, rest, [], so, ro, hs, [], [], rfl, rfl, rfl, rfl, by simp, r,
+        VR.skip hi (VR.nil _), by simp, by simp, Or.inl ⟨rfl, he⟩⟩
+    · simp only [hp, Bool.false_eq_true, if_false] at hfi
+      cases hfr : ro.findIdx? p with
+      | none => simp [hfr] at hfi
+      | some idx' =>
+        simp only [hfr, Option.map_some, Option.some.injEq] at hfi
+        subst hfi
+        have hso : elHasEndEdits enc so = false := hun so (by simp)
+        obtain ⟨imps, target, rest', impsO, targetO, restO, Vrest, QT, Qimps, h1, h2, h3, h4, h5, h6, h7, h8, h9, h10⟩ :=
+          ih idx' hfr (fun o ho => hun o (by simp [List.take_succ_cons, ho]))
+        refine ⟨mi :: imps, target, rest', so :: impsO, targetO, restO, Vrest, QT, Qimps,
+          by rw [h1]; rfl, by rw [h2]; rfl, by simp [h3], by simp [h4], h5, h6, ?_, h8, ?_, h10⟩
+        · have := VR.snoc_none h7 mi.data hi
+          simpa [List.reverse_cons, List.map_append] using this
+        · intro o ho
+          rcases List.mem_cons.mp ho with rfl | ho
+          · exact hso
+          · exact h9 o ho
+  | @consSome mi so rest ro hs hd r hn hm hi he ih =>
+    rw [List.findIdx?_cons] at hfi
+    by_cases hp : p so = true
+    · simp only [hp, if_true, Option.some.injEq] at hfi
+      subst hfi
+      exact ⟨[], mi, rest, [], so, ro, hs, [{ handler := hd, userCount := 0 }], [], rfl, rfl, rfl, rfl,
+        by simp, r, VR.keep hi (VR.nil _), by simp, by simp, Or.inr ⟨hd, rfl, he⟩⟩
+    · simp only [hp, Bool.false_eq_true, if_false] at hfi
+      cases hfr : ro.findIdx? p with
+      | none => simp [hfr] at hfi
+      | some idx' =>
+        simp only [hfr, Option.map_some, Option.some.injEq] at hfi
+        subst hfi
+        have hso : elHasEndEdits enc so = false := hun so (by simp)
+        obtain ⟨imps, target, rest', impsO, targetO, restO, Vrest, QT, Qimps, h1, h2, h3, h4, h5, h6, h7, h8, h9, h10⟩ :=
+          ih idx' hfr (fun o ho => hun o (by simp [List.take_succ_cons, ho]))
+        have hinvis : Invisible enc hd := by
+          cases hed : so.edit with
+          | none => rw [hed] at he; exact absurd he.2 (by simp)
+          | some E =>
+            rw [hed] at he
+            have : hasEndEdits enc E = false := by simpa [elHasEndEdits, hed] using hso
+            exact he.2.2 this hd rfl
+        refine ⟨mi :: imps, target, rest', so :: impsO, targetO, restO, Vrest, QT,
+          Qimps ++ [{ handler := hd, userCount := 0 }],
+          by rw [h1]; rfl, by rw [h2]; rfl, by simp [h3], by simp [h4], ?_, h6, ?_, ?_, ?_, h10⟩
+        · rw [h5]; simp [List.append_assoc]
+        · have := VR.snoc_some h7 mi.data hd (by rw [hi, h5]; simp [List.length_append])
+          simpa [List.reverse_cons, List.map_append, List.append_assoc] using this
+        · intro x hx
+          rcases List.mem_append.mp hx with hx | hx
+          · exact h8 x hx
+          · simp at hx; subst hx; exact ⟨rfl, hinvis⟩
+        · intro o ho
+          rcases List.mem_cons.mp ho with rfl | ho
+          · exact hso
+          · exact h9 o ho
+
+/-! Running several activated handlers on one end tag -/
+
+/-- A tag that still serialises like the fresh tag `{name, raw}`. -/
+def InvisTag (enc : Enc) (name raw : Bytes) (t : EndTag) : Prop :=
+  t.name = name ∧ t.raw = raw ∧ t.modified = false
+    ∧ encodeDyn enc t.mutations.mutate.contentBefore = []
+    ∧ encodeDyn enc t.mutations.mutate.contentAfter = []
+    ∧ t.mutations.mutate.removed = false ∧ t.mutations.mutate.replacement = []
+
+theorem InvisTag_fresh (enc : Enc) (name raw : Bytes) : InvisTag enc name raw { name := name, raw := raw } :=
+  ⟨rfl, rfl, rfl, rfl, rfl, rfl, rfl⟩
+
+theorem foldl_applyOps_nils (t : EndTag) (ls : List (List EndTagOp)) (h : ∀ l ∈ ls, l = []) :
+    ls.foldl EndTag.applyOps t = t := by
+  induction ls generalizing t with
+  | nil => rfl
+  | cons l ls ih =>
+    rw [List.foldl_cons, h l List.mem_cons_self]
+    exact ih _ (fun l' hl' => h l' (List.mem_cons_of_mem _ hl'))
+
+theorem invisible_run {enc : Enc} {name raw : Bytes} {t : EndTag} {h : EndTagHandler}
+    (hi : Invisible enc h) (ht : InvisTag enc name raw t) : InvisTag enc name raw (h.run t) := by
+  obtain ⟨h1, h2, h3⟩ := hi
+  unfold EndTagHandler.run
+  rw [h1]
+  simp only
+  rw [foldl_applyOps_nils _ _ h2]
+  cases hm : h.mutations with
+  | none => exact ht
+  | some m =>
+    obtain ⟨a, b, c, d⟩ := h3 m hm
+    exact ⟨ht.1, ht.2.1, ht.2.2.1, a, b, c, d⟩
+
+theorem invis_intoBytes {enc : Enc} {name raw : Bytes} {t : EndTag} (ht : InvisTag enc name raw t) :
+    t.intoBytes enc = raw := by
+  obtain ⟨_, h2, h3, h4, h5, h6, _⟩ := ht
+  unfold EndTag.intoBytes
+  rw [serialize_mutate]
+  simp [Mutations.serialize, h4, h5, h6, EndTag.serializeSelf, h3, h2]
+
+/-- Any deferred handler gives the same bytes on a tag that is still invisible as on the fresh tag. -/
+theorem run_on_invis {enc : Enc} {name raw : Bytes} {t : EndTag} (ht : InvisTag enc name raw t)
+    (h : EndTagHandler) :
+    (h.run t).intoBytes enc = (h.run { name := name, raw := raw }).intoBytes enc := by
+  obtain ⟨h1, h2, h3, h4, h5, h6, h7⟩ := ht
+  obtain ⟨tn, tr, tm, tmu⟩ := t
+  simp only at h1 h2 h3 h4 h5 h6 h7
+  subst h1 h2 h3
+  unfold EndTagHandler.run
+  simp only [foldl_applyOps_flatten]
+  unfold EndTag.intoBytes
+  rw [endTag_mutations, endTag_serializeSelf', foldl_apply_serialize,
+    endTag_mutations, endTag_serializeSelf', foldl_apply_serialize]
+  have hdef : ({} : Mutations).mutate = ({} : MutationsInner) := rfl
+  cases hn : h.modifiedName <;> cases hm : h.mutations
+  · -- no rename, no deferred mutations: the invisible mutations stay
+    simp only [EndTag.serializeSelf, Mutations.serialize, innerAfter, encodeDyn_append, h4, h5, h6, h7, hdef,
+      List.nil_append, List.append_nil, Bool.false_or]
+  · simp only [EndTag.serializeSelf]
+  · simp only [EndTag.setNameRaw, EndTag.serializeSelf, Mutations.serialize, innerAfter, encodeDyn_append,
+      h4, h5, h6, h7, hdef, List.nil_append, List.append_nil, Bool.false_or]
+    rfl
+  · simp only [EndTag.setNameRaw, EndTag.serializeSelf]
+    rfl
+
+theorem foldl_invisible {enc : Enc} {name raw : Bytes} (hs : List EndTagHandlerItem)
+    (hi : ∀ x ∈ hs, Invisible enc x.handler) (t : EndTag) (ht : InvisTag enc name raw t) :
+    InvisTag enc name raw (hs.foldl (fun t it => it.handler.run t) t) := by
+  induction hs generalizing t with
+  | nil => exact ht
+  | cons x hs ih =>
+    rw [List.foldl_cons]
+    exact ih (fun y hy => hi y (List.mem_cons_of_mem _ hy)) _ (invisible_run (hi x List.mem_cons_self) ht)
+
+theorem runEndTagHandlers_active (V A : List EndTagHandlerItem) (hz : ∀ it ∈ V, it.userCount = 0)
+    (ha : ∀ it ∈ A, it.userCount > 0) (t : EndTag) :
+    runEndTagHandlers (V ++ A) t = (V, A.reverse.foldl (fun t it => it.handler.run t) t) := by
+  cases A with
+  | nil => simp [runEndTagHandlers_allZero V hz]
+  | cons x A =>
+    unfold runEndTagHandlers
+    have hx : x.userCount > 0 := ha x List.mem_cons_self
+    have : (V ++ x :: A).findIdx? (fun it => decide (it.userCount > 0)) = some V.length := by
+      rw [List.findIdx?_append, findIdx?_none_of_allZero V hz]
+      simp [List.findIdx?_cons, hx]
+    rw [this]
+    simp only [List.take_left', List.drop_left']
+    congr 1
+    -- all drained handlers are active
+    have hall : ∀ (l : List EndTagHandlerItem), (∀ it ∈ l, it.userCount > 0) → ∀ t : EndTag,
+        l.foldl (fun t it => if it.userCount > 0 then it.handler.run t else t) t
+          = l.foldl (fun t it => it.handler.run t) t := by
+      intro l
+      induction l with
+      | nil => intro _ t; rfl
+      | cons y l ih =>
+        intro hl t
+        simp only [List.foldl_cons, hl y List.mem_cons_self, if_true]
+        exact ih (fun z hz => hl z (List.mem_cons_of_mem _ hz)) _
+    exact hall _ (fun it hit => ha it (List.mem_reverse.mp hit)) t
+
+/-- After the pop: the activated handlers `A` are the tail of the vector. -/
+theorem emitEndTag_active (enc : Enc) (S : St) (name raw : Bytes) (V A : List EndTagHandlerItem)
+    (hvec : S.endTagHandlers = V ++ A) (hz : ∀ it ∈ V, it.userCount = 0)
+    (ha : ∀ it ∈ A, it.userCount > 0) (hE : S.emission = true → S.removedCount = 0) :
+    emitEndTag enc S name raw
+      = ({ S with endTagHandlers := V, emission := S.removedCount == 0 },
+         if S.removedCount == 0 then
+           (A.reverse.foldl (fun (t : EndTag) (it : EndTagHandlerItem) => it.handler.run t)
+              { name := name, raw := raw }).intoBytes enc
+         else []) := by
+  cases A with
+  | nil =>
+    have hv : S.endTagHandlers = V := by simpa using hvec
+    rw [emitEndTag_none enc S name raw (by rw [hv]; exact hz) hE]
+    obtain ⟨st, cn, iv, eh, rc, em, tp, f1, f2⟩ := S
+    simp only at hv
+    subst hv
+    simp [fresh_endTag_intoBytes]
+  | cons x A =>
+    unfold emitEndTag
+    have hany : S.endTagHandlers.any (fun it => decide (it.userCount > 0)) = true := by
+      rw [hvec]; simp [ha x List.mem_cons_self]
+    simp only [hany, Bool.true_or, if_true]
+    cases hem : S.emission
+    · cases hrc : (S.removedCount == 0)
+      · have hne : ¬ S.removedCount = 0 := by simpa using hrc
+        simp [hvec, runEndTagHandlers_active V _ hz ha, hem, hne]
+      · have he : S.removedCount = 0 := by simpa using hrc
+        simp [hvec, runEndTagHandlers_active V _ hz ha, he]
+    · have := hE hem
+      simp [this, hvec, runEndTagHandlers_active V _ hz ha, hem]
+
+theorem closeAllImplicit_nil_of_clean (enc : Enc) (s : SpecSt) (els below : List OpenEl)
+    (h : els.any (elHasEndEdits enc) = false) : closeAllImplicit enc s els below = [] := by
+  induction els generalizing below with
+  | nil => rfl
+  | cons o os ih =>
+    simp only [List.any_cons, Bool.or_eq_false_iff] at h
+    simp only [closeAllImplicit, ih _ h.2, List.append_nil, closeImplicit]
+    cases hed : o.edit with
+    | none => rfl
+    | some e =>
+      have h1 := h.1
+      simp only [elHasEndEdits, hed, hasEndEdits, Bool.or_eq_false_iff, Bool.not_eq_false',
+        List.isEmpty_iff] at h1
+      simp [Spec.EditDoc.emit, h1.1.1.1.1, h1.1.1.1.2]
+
 theorem closeAllImplicit_untouched (enc : Enc) (s : SpecSt) (els below : List OpenEl)
     (h : ∀ o ∈ els, o.edit = none) : closeAllImplicit enc s els below = [] := by
   induction els generalizing below with
@@ -1039,7 +1439,7 @@ theorem countRemoved_untouched (imps tail : List StackItem)
 theorem stepEndTag_sim {H : List Handler} {enc : Enc} {ms : St} {ss : SpecSt} (h : Sim H enc ms ss)
     (name raw : Bytes)
     (hunt : ∀ idx, ss.openEls.findIdx? (fun o => o.lname == asciiLowerBytes name) = some idx →
-      ∀ o ∈ ss.openEls.take idx, o.edit = none) :
+      ∀ o ∈ ss.openEls.take idx, elHasEndEdits enc o = false) :
     Sim H enc (Model.step H enc ms (.endTag name raw)).1 (Spec.EditDoc.step H enc ss (.endTag name raw)).1
       ∧ (Model.step H enc ms (.endTag name raw)).2 = (Spec.EditDoc.step H enc ss (.endTag name raw)).2 := by
   have hrinvFinal := (stepEndTag_spec H enc ms name raw h.rinv).1
@@ -1080,8 +1480,8 @@ theorem stepEndTag_sim {H : List Handler} {enc : Enc} {ms : St} {ss : SpecSt} (h
     have hnf := hf.nofault
     have hnu := hf.rinv.noUnderflow
     simp only at hrel hcinv hcount hinv htp hnd hnf hnu hemrc hall hfi hrinvFinal hunt ⊢
-    obtain ⟨imps, target, rest, impsO, targetO, restO, hst, hos, hl1, hl2, himps, himpsO, hrelT⟩ :=
-      hrel.split _ idx hfi (hunt idx hfi)
+    obtain ⟨imps, target, rest, impsO, targetO, restO, Vrest, QT, Qimps, hst, hos, hl1, hl2, hvec, hrelR, hVR,
+        hQimps, himpsO, hT⟩ := hrel.decompose _ idx hfi (hunt idx hfi)
     subst hst hos
     have htake : List.take (idx + 1) (imps ++ target :: rest) = imps ++ [target] := by
       rw [← hl1]; exact take_len_succ _ _ _
@@ -1093,94 +1493,100 @@ theorem stepEndTag_sim {H : List Handler} {enc : Enc} {ms : St} {ss : SpecSt} (h
       rw [← hl2]; exact drop_len_succ _ _ _
     have hgetO : (impsO ++ targetO :: restO)[idx]? = some targetO := by
       rw [← hl2]; exact get_len _ _ _
+    have hclose : closeAllImplicit enc { openEls := impsO ++ targetO :: restO, inv := sinv, textPending := stp }
+        impsO (targetO :: restO) = [] :=
+      closeAllImplicit_nil_of_clean enc _ impsO _ (by
+        rw [List.any_eq_false]; intro o ho; simp [himpsO o ho])
     simp only [htake, hdrop, htakeO, hdropO, hgetO, List.reverse_append, List.reverse_cons, List.reverse_nil,
-      List.nil_append, List.singleton_append, List.map_cons, List.foldl_cons,
-      closeAllImplicit_untouched enc _ impsO _ himpsO, List.append_nil] at hrinvFinal ⊢
-    -- facts about counts
-    have hndT : target.data.matched.Nodup := hnd target (by simp)
+      List.nil_append, List.singleton_append, List.map_cons, hclose, List.append_nil] at hrinvFinal ⊢
+    -- the popped descriptors, outermost first
+    have hnds : ∀ d ∈ target.data :: imps.reverse.map StackItem.data, d.matched.Nodup := by
+      intro d hd
+      rcases List.mem_cons.mp hd with rfl | hd
+      · exact hnd target (by simp)
+      · obtain ⟨it, hit, rfl⟩ := List.mem_map.mp hd
+        exact hnd it (by simp [List.mem_reverse.mp hit])
+    have hsumds : ∀ i, sumInd H (target.data :: imps.reverse.map StackItem.data) i
+        = sumInd H (imps.map StackItem.data) i
+          + (if isContentHandler H i && target.data.matched.contains i then 1 else 0) := by
+      intro i; rw [sumInd_cons, List.map_reverse, sumInd_reverse]; omega
     have hcinv' : ∀ i, counts i = base H i
         + (sumInd H (imps.map StackItem.data) i
           + ((if isContentHandler H i && target.data.matched.contains i then 1 else 0) + occ H i rest)) := by
       intro i; rw [hcinv i, occ_append, occ_cons, occ_eq_sumInd]
-    have hpos : ∀ i ∈ target.data.matched, isContentHandler H i = true → 1 ≤ counts i := by
-      intro i hi' hc
-      rw [hcinv' i]
-      have : target.data.matched.contains i = true := by simpa using hi'
-      simp only [hc, this, Bool.and_self, if_true]
-      omega
-    have hcountT : rc = countRemoved (target :: rest) := by
-      rw [hcount, countRemoved_untouched imps _ (fun it hit => (himps it hit).2)]
-    have hrc : target.data.removeContent = true → rc ≠ 0 := by
-      intro hr; rw [hcountT]; simp [countRemoved, hr]
-    have hE : em = true → rc - (if target.data.removeContent = true then 1 else 0) = 0 := by
+    have hc : ∀ i, sumInd H (target.data :: imps.reverse.map StackItem.data) i ≤ counts i := by
+      intro i; rw [hsumds i, hcinv' i]; omega
+    have hremds : countRemovedD (target.data :: imps.reverse.map StackItem.data)
+        = countRemoved imps + (if target.data.removeContent then 1 else 0) := by
+      rw [countRemovedD_cons, countRemovedD_reverse_map]; omega
+    have hcountT : rc = countRemoved imps + ((if target.data.removeContent then 1 else 0) + countRemoved rest) := by
+      rw [hcount, countRemoved_append]
+      congr 1
+      cases hr : target.data.removeContent <;> simp [countRemoved, hr] <;> omega
+    have hr : countRemovedD (target.data :: imps.reverse.map StackItem.data) ≤ rc := by
+      rw [hremds, hcountT]; omega
+    rw [foldl_stopMatching_VR H _ (QT ++ Qimps) Vrest.length hVR _ Vrest rfl hvec hnds hc hr] at hrinvFinal ⊢
+    have hrc' : rc - countRemovedD (target.data :: imps.reverse.map StackItem.data) = countRemoved rest := by
+      rw [hremds, hcountT]; omega
+    have hE : em = true → rc - countRemovedD (target.data :: imps.reverse.map StackItem.data) = 0 := by
       intro he'; have : rc = 0 := by rw [hemrc] at he'; simpa using he'
       omega
-    have hrc' : rc - (if target.data.removeContent = true then 1 else 0) = countRemoved rest := by
-      rw [hcountT]; cases hr : target.data.removeContent <;> simp [countRemoved, hr]
-    have hdU : ∀ d ∈ (imps.reverse.map StackItem.data),
-        d.matched.Nodup ∧ d.endTagHandlerIdx = none ∧ d.removeContent = false := by
-      intro d hd
-      obtain ⟨it, hit, rfl⟩ := List.mem_map.mp hd
-      have hit' : it ∈ imps := List.mem_reverse.mp hit
-      exact ⟨hnd it (by simp [hit']), (himps it hit').1, (himps it hit').2⟩
-    have hsum : ∀ i, sumInd H (imps.reverse.map StackItem.data) i = sumInd H (imps.map StackItem.data) i := by
-      intro i; rw [List.map_reverse, sumInd_reverse]
-    have hfinalCounts : ∀ i, counts i
-          - (if isContentHandler H i && target.data.matched.contains i then 1 else 0)
-          - sumInd H (imps.reverse.map StackItem.data) i = base H i + occ H i rest := by
-      intro i; rw [hsum i, hcinv' i]; omega
-    have hfoldC : ∀ i, sumInd H (imps.reverse.map StackItem.data) i
-        ≤ counts i - (if isContentHandler H i && target.data.matched.contains i then 1 else 0) := by
-      intro i; rw [hsum i, hcinv' i]; omega
-    cases hrelT with
-    | @consNone _ _ _ _ _ r hn hm hi he =>
-      rw [stopMatching_none H _ target.data hndT hpos hi hrc] at hrinvFinal ⊢
-      rw [foldl_stopMatching_untouched H _ _ hdU hfoldC] at hrinvFinal ⊢
-      rw [emitEndTag_none enc _ name raw hall hE] at hrinvFinal ⊢
-      have hsup : suppressed { openEls := restO, inv := sinv, textPending := stp } = !(countRemoved rest == 0) := by
-        rw [countRemoved_pos_iff_any, suppressed, r.suppressed]; simp
-      have hemit : ∀ b : Bytes, Spec.EditDoc.emit { openEls := restO, inv := sinv, textPending := stp } b
-          = if (countRemoved rest == 0) = true then b else [] := by
-        intro b; rw [Spec.EditDoc.emit, hsup]; cases (countRemoved rest == 0) <;> rfl
-      refine ⟨⟨hinv, htp, r, hfinalCounts, hrinvFinal, hnf, fun it hit => hnd it (by simp [hit])⟩, ?_⟩
-      simp only
+    have hact : ∀ it ∈ (QT ++ Qimps).map activate, it.userCount > 0 := by
+      intro it hit
+      obtain ⟨x, _, rfl⟩ := List.mem_map.mp hit
+      simp [activate]
+    rw [emitEndTag_active enc _ name raw Vrest _ rfl hrelR.allZero hact hE] at hrinvFinal ⊢
+    have hsup : suppressed { openEls := restO, inv := sinv, textPending := stp } = !(countRemoved rest == 0) := by
+      rw [countRemoved_pos_iff_any, suppressed, hrelR.suppressed]; simp
+    have hemit : ∀ b : Bytes, Spec.EditDoc.emit { openEls := restO, inv := sinv, textPending := stp } b
+        = if (countRemoved rest == 0) = true then b else [] := by
+      intro b; rw [Spec.EditDoc.emit, hsup]; cases (countRemoved rest == 0) <;> rfl
+    refine ⟨⟨hinv, htp, hrelR, ?_, hrinvFinal, hnf, fun it hit => hnd it (by simp [hit])⟩, ?_⟩
+    · intro i
+      show counts i - _ = base H i + occ H i rest
+      rw [hsumds i, hcinv' i]; omega
+    · simp only
       congr 1
       rw [hrc']
-      cases hed : targetO.edit with
-      | none => simp only; rw [hemit]
-      | some E =>
-        simp only
-        rw [hed] at he
-        have := he.2 name raw
-        simp only at this
-        rw [fresh_endTag_intoBytes] at this
-        rw [← this, hemit]
-    | @consSome _ _ _ _ hs hd r hn hm hi he =>
-      rw [stopMatching_some H _ target.data hndT hpos hs hd rfl hi hrc] at hrinvFinal ⊢
-      rw [foldl_stopMatching_untouched H _ _ hdU hfoldC] at hrinvFinal ⊢
-      rw [emitEndTag_some enc _ name raw hs hd rfl r.allZero hE] at hrinvFinal ⊢
-      have hsup : suppressed { openEls := restO, inv := sinv, textPending := stp } = !(countRemoved rest == 0) := by
-        rw [countRemoved_pos_iff_any, suppressed, r.suppressed]; simp
-      have hemit : ∀ b : Bytes, Spec.EditDoc.emit { openEls := restO, inv := sinv, textPending := stp } b
-          = if (countRemoved rest == 0) = true then b else [] := by
-        intro b; rw [Spec.EditDoc.emit, hsup]; cases (countRemoved rest == 0) <;> rfl
-      refine ⟨⟨hinv, htp, r, hfinalCounts, hrinvFinal, hnf, fun it hit => hnd it (by simp [hit])⟩, ?_⟩
-      simp only
-      congr 1
-      rw [hrc']
-      cases hed : targetO.edit with
-      | none => rw [hed] at he; exact absurd he.2 (by simp)
-      | some E =>
-        simp only
-        rw [hed] at he
-        have := he.2 name raw
-        simp only at this
-        rw [← this, hemit]
+      -- the tag after the implicit elements' invisible handlers
+      have hinvT : InvisTag enc name raw
+          ((Qimps.map activate).reverse.foldl (fun (t : EndTag) (it : EndTagHandlerItem) => it.handler.run t)
+            { name := name, raw := raw }) := by
+        apply foldl_invisible _ _ _ (InvisTag_fresh enc name raw)
+        intro x hx
+        obtain ⟨y, hy, rfl⟩ := List.mem_map.mp (List.mem_reverse.mp hx)
+        exact (hQimps y hy).2
+      rw [List.map_append, List.reverse_append, List.foldl_append]
+      rcases hT with ⟨hQT, he⟩ | ⟨hd, hQT, he⟩
+      · subst hQT
+        simp only [List.map_nil, List.reverse_nil, List.foldl_nil]
+        rw [invis_intoBytes hinvT]
+        cases hed : targetO.edit with
+        | none => simp only; rw [hemit]
+        | some E =>
+          simp only
+          rw [hed] at he
+          have := he.2.1 name raw
+          simp only at this
+          rw [fresh_endTag_intoBytes] at this
+          rw [← this, hemit]
+      · subst hQT
+        simp only [List.map_cons, List.map_nil, List.reverse_cons, List.reverse_nil, List.nil_append,
+          List.foldl_cons, List.foldl_nil, activate]
+        rw [run_on_invis hinvT]
+        cases hed : targetO.edit with
+        | none => rw [hed] at he; exact absurd he.2 (by simp)
+        | some E =>
+          simp only
+          rw [hed] at he
+          have := he.2.1 name raw
+          simp only at this
+          rw [← this, hemit]
 
 /-! ### H. Whole runs -/
 
 theorem step_sim {H : List Handler} {enc : Enc} {ms : St} {ss : SpecSt} (h : Sim H enc ms ss)
-    (tok : SrcToken) (hn : closesUntouched ss tok = true) :
+    (tok : SrcToken) (hn : (!implicitHere enc ss tok) = true) :
     Sim H enc (Model.step H enc ms tok).1 (Spec.EditDoc.step H enc ss tok).1
       ∧ (Model.step H enc ms tok).2 = (Spec.EditDoc.step H enc ss tok).2 := by
   cases tok with
@@ -1191,23 +1597,20 @@ theorem step_sim {H : List Handler} {enc : Enc} {ms : St} {ss : SpecSt} (h : Sim
   | endTag n raw =>
     apply stepEndTag_sim h n raw
     intro idx hidx o ho
-    simp only [closesUntouched, hidx, List.all_eq_true] at hn
-    have := hn o ho
-    cases hoe : o.edit with
-    | none => rfl
-    | some e => simp [hoe] at this
+    simp only [implicitHere, hidx, Bool.not_eq_true', List.any_eq_false] at hn
+    simpa using hn o ho
 
 theorem steps_sim {H : List Handler} {enc : Enc} (toks : List SrcToken) {ms : St} {ss : SpecSt}
-    (h : Sim H enc ms ss) (hn : tidyRun H enc ss toks = true) :
+    (h : Sim H enc ms ss) (hn : cleanRun H enc ss toks = true) :
     Sim H enc (Model.steps H enc ms toks).1 (Spec.EditDoc.steps H enc ss toks).1
       ∧ (Model.steps H enc ms toks).2.flatten = (Spec.EditDoc.steps H enc ss toks).2
       ∧ (Spec.EditDoc.steps H enc ss toks).1.openEls.any (elHasEndEdits enc) = false := by
   induction toks generalizing ms ss with
   | nil =>
-    simp only [tidyRun, Bool.not_eq_true'] at hn
+    simp only [cleanRun, Bool.not_eq_true'] at hn
     exact ⟨h, rfl, hn⟩
   | cons t ts ih =>
-    simp only [tidyRun, Bool.and_eq_true] at hn
+    simp only [cleanRun, Bool.and_eq_true] at hn
     have h1 := step_sim h t hn.1
     have h2 := ih h1.1 hn.2
     simp only [Model.steps, Spec.EditDoc.steps, List.flatten_cons]
@@ -1217,24 +1620,9 @@ theorem Sim_init (H : List Handler) (enc : Enc) : Sim H enc (St.init H) {} :=
   ⟨rfl, rfl, Rel.nil, fun i => by simp [base, occ, St.init], RInv_init H, rfl,
    fun it hit => by simp [St.init] at hit⟩
 
-theorem closeAllImplicit_nil_of_clean (enc : Enc) (s : SpecSt) (els below : List OpenEl)
-    (h : els.any (elHasEndEdits enc) = false) : closeAllImplicit enc s els below = [] := by
-  induction els generalizing below with
-  | nil => rfl
-  | cons o os ih =>
-    simp only [List.any_cons, Bool.or_eq_false_iff] at h
-    simp only [closeAllImplicit, ih _ h.2, List.append_nil, closeImplicit]
-    cases hed : o.edit with
-    | none => rfl
-    | some e =>
-      have h1 := h.1
-      simp only [elHasEndEdits, hed, hasEndEdits, Bool.or_eq_false_iff, Bool.not_eq_false',
-        List.isEmpty_iff] at h1
-      simp [Spec.EditDoc.emit, h1.1.1.1.1, h1.1.1.1.2]
-
 /-- **Refinement**: on well-nested runs the dispatcher model produces the documented edit. -/
 theorem rewrite_refines (H : List Handler) (enc : Enc) (toks : List SrcToken)
-    (hn : tidyRun H enc {} toks = true) :
+    (hn : cleanRun H enc {} toks = true) :
     (Model.rewrite H enc toks).2 = Spec.EditDoc.rewrite H enc toks
       ∧ (Model.rewrite H enc toks).1.fault = false ∧ (Model.rewrite H enc toks).1.faultRemoved = false := by
   obtain ⟨hs, ho, hclean⟩ := steps_sim toks (Sim_init H enc) hn
